@@ -95,6 +95,7 @@ type testServer struct {
 	sessCloseErr []error
 	panics       []string
 	decodeErrs   int
+	writeErrs    map[*gortsplib.ServerSession]int // OnStreamWriteError per session (write queue full, …)
 	closed       bool
 }
 
@@ -185,8 +186,15 @@ func (c *core) OnDecodeError(_ *gortsplib.ServerHandlerOnDecodeErrorCtx) {
 	c.ts.decodeErrs++
 	c.ts.mu.Unlock()
 }
-func (c *core) OnPacketsLost(_ *gortsplib.ServerHandlerOnPacketsLostCtx)           {}
-func (c *core) OnStreamWriteError(_ *gortsplib.ServerHandlerOnStreamWriteErrorCtx) {}
+func (c *core) OnPacketsLost(_ *gortsplib.ServerHandlerOnPacketsLostCtx) {}
+func (c *core) OnStreamWriteError(ctx *gortsplib.ServerHandlerOnStreamWriteErrorCtx) {
+	c.ts.mu.Lock()
+	if c.ts.writeErrs == nil {
+		c.ts.writeErrs = map[*gortsplib.ServerSession]int{}
+	}
+	c.ts.writeErrs[ctx.Session]++
+	c.ts.mu.Unlock()
+}
 
 type mDescribe struct{ c *core }
 
